@@ -116,4 +116,28 @@ PROPS = {
                         "std saturates decimal exponents beyond 65536 digits of magnitude; the model does not: irrelevant for texts shorter than 65000 characters",
                         "the oracle stays silent where the documentation does: blank time texts, trimming of quoted list entries in tags, signs/exponents in numbers of minutes, text glued to a servings number"],
     },
+    "C19": {
+        "gen": [],
+        "pre_build": ["prep_bindings.py"],   # scratch copy of $REPO/bindings with an rlib (harness/target/bindings_copy)
+        "features": ["ffi"],
+        "trusted_base": COMMON_TB + [FLOAT_TB,
+            "translators/prep_bindings.py: the bindings crate is compiled from a copy of the working tree's bindings/src with only its manifest edited (package renamed, \"lib\" crate type added, core path made absolute)",
+            "uniffi 0.28 record/enum (de)serialisation (FfiConverter::write/try_read) is how the harness builds and reads `Amount`/`Ingredient` values whose fields are crate-private; uniffi scaffolding itself is not modelled",
+            "the recipe S-expression sent to the model is produced from the real ScaledRecipe through its public accessors (harness/src/recipe_sexp.rs)"],
+        "assumptions": ["mirror theorems: the core recipe's item indices are in range (C06's invariant) and it has at most 2^32 components of each kind (`usize as u32` in into_item)",
+                        "combination theorems are over exact rationals and lists of at most 2^32 ingredients; text amounts are concatenated in input order and are outside the order-independence statement",
+                        "the view's metadata map is not modelled (the property does not mention it)",
+                        "Range amounts, Number::Fraction values and inline-quantity items cannot be produced through parse_recipe (canonical parser, empty converter): those branches of into_simple_recipe are covered by the theorems on the model only; ranges in combine_ingredients are exercised through the FFI wire format"],
+    },
+    "C15": {
+        "gen": [],
+        "trusted_base": COMMON_TB + [
+            "serde_json number printing/parsing: the theorems assume parse(print x) = x for finite f64 (serde_json built with `float_roundtrip`, enabled in harness/Cargo.toml); the correspondence compares f64 by bit pattern after re-parsing the printed literal with str::parse",
+            "serde / serde_derive / serde_json / serde_yaml / bitflags internals are modelled (shapes of the derived impls), not verified; the deserializers of the model read a document the way the derived ones do (field lookup by key, tag dispatch, null = None, flatten) but are only proved against the model's own encoder; that the real from_str inverts the real to_string is what the oracle evaluates on every generated recipe",
+            "harness/src/props/c15.rs canon_json (rewrites the real JSON text: strings as code points, floats as bit patterns) and harness/src/recipe_sexp.rs (typed recipe to S-expression through public accessors; `reference_target` of a definition is not observable and sent as none)"],
+        "assumptions": ["every number of the recipe is finite (the property's premise)",
+                        "modifier bits are the five declared flags (bitflags prints other bits in hexadecimal, not modelled)",
+                        "Metadata.map is an opaque JSON object in the model: the theorems cover metadata that is JSON-representable (string keys at every depth, no YAML tags); front matter outside that class is accepted by the parser and does not survive serialization (known finding F-C15-1, re-found by the oracle every run); equality of the YAML values read back is evaluated by the oracle on the implementation only",
+                        "u32/usize ranges are not modelled (naturals)"],
+    },
 }
